@@ -31,7 +31,6 @@ RULE = ('operations: w/a/x = write key A (two slices / slice+startAppending+slic
         'holding a complete two-slice entry A. quick: all pairs of single operations (fine steps, 1 preemption; atomic steps, 2 '
         'preemptions), all pairs of two-operation scripts over {x,r,d,u} (fine, 1), all triples over {x,r,d} (2). thorough: pairs fine 2 '
         '/ atomic 3, two-operation scripts over {a,x,r,d,u,b,q} fine 1 and over {a,x,r,d,u} atomic 2, all triples over {a,x,b,r,d,u,v} (2). Every '
-        '
         'schedule within the bound runs the real StoreMap code')
 
 
